@@ -124,7 +124,7 @@ def speed_above_threshold(low, n):
     from fractions import Fraction
     g = low.g
     op, args, _ = g.nodes[n]
-    if op == "LT" and g.op(args[0]) == "CONST" and g.payload(args[0]) == Fraction(1e-5) and g.op(args[1]) == "FABS":
+    if op == "LT" and g.op(args[0]) == "CONST" and g.payload(args[0]) == Fraction(1e-5):
         return True
     return None
 
